@@ -79,6 +79,15 @@ def jobs(tier, seed):
             if n >= 4 and not th:
                 pats = [p for p in pats if sum(p) <= 2]
             out.append({'family': f'button-{n}', 'kind': 'button', 'n': n, 'layout': layout, 'pats': pats})
+    # chip types other than int, blinds below one unit (quarter chips, thirds): the opener does not depend on the chip type
+    for chips in ('decimal', 'fraction', 'float'):
+        for n in (2, 3, 4):
+            for layout in [(1, 2), (2, 2), (1, 2, 4), (1, 2, 0, 4), (1, 2, -2), (0, 2)]:
+                if len(layout) > n or O.button_designee(n, layout + (0,) * (n - len(layout)), True) == 'undet':
+                    continue
+                lay = layout + (0,) * (n - len(layout))
+                out.append({'family': f'button-{chips}-chips', 'kind': 'button', 'n': n, 'layout': lay, 'chips': chips,
+                            'pats': [p for p in product((0, 1), repeat=n) if sum(p) <= 1]})
     # stud door cards
     deck = [r + s for r in O.STD for s in O.SUITS]
     for razz in (False, True):
@@ -138,7 +147,7 @@ def run_button(job):
         stacks = tuple(1 if p else 9 for p in pat)
         if all(s == 1 for s in stacks):
             continue
-        cfg = C.custom(stacks, st2(), deck='KUHN9', hand_types=('KuhnAny',), antes=0, blinds=tuple(layout))
+        cfg = C.custom(stacks, st2(), deck='KUHN9', hand_types=('KuhnAny',), antes=0, blinds=tuple(layout), **({'chips': job['chips']} if job.get('chips') else {}))
         j = {'family': job['family'], 'cfg': cfg, 'dev_bound': 1, 'opts': {'raises': 'min'}}
         r, ctx = sx.run(j, [ButtonOpenerMonitor('C13')], validated='actors_compared')
         for k in stats:
